@@ -52,6 +52,50 @@ def conn_histories(chk, label, **kw):
     return summ
 
 
+def conn_replay(chk, label, cfg, num=0, depth=100, exhaustive=False, validate=None):
+    """specification -> implementation for the connection manager: behaviours of MC_ConnReplay (MC_Conn's
+    actions, fast-network priority) are executed on real Networks with schedule gates at in.tls, dial.done,
+    in.done and h.closing; listing, subscriber events, connect() results, stored connection / origin and
+    live handlers are compared on every node after every step; the recorded runs are validated by
+    AnemoConnTrace as well (all files, or the first `validate`)."""
+    beh, viol = vlib.tlc_replays("MC_ConnReplay.tla", cfg, num=num, depth=depth, exhaustive=exhaustive,
+                                 workers=4 if exhaustive else 1, timeout=1800)
+    if viol:
+        chk.violation("model:" + viol, "TLC: %s in %s" % (viol, cfg), {})
+    if not beh:
+        chk.tool_errors.append("no behaviours generated from %s" % cfg)
+        return
+    path = vlib.write_json(os.path.join(vlib.WORK, "%s_%s.json" % (chk.pid, label)), beh)
+    summ = harness("replay-conn", file=path, out=os.path.join(vlib.WORK, "%s_%s" % (chk.pid, label)), jobs=12, files=8,
+                   seed=1)
+    summ["args"] = {"cfg": cfg}
+    steps = sum(len(b["steps"]) for b in beh)
+    chk.parts.setdefault("replays", []).append({"name": label, "cfg": cfg, "behaviours": len(beh), "steps": steps,
+                                                "exhaustive": exhaustive})
+    chk.evaluations += steps
+    for b in beh:
+        chk.distinct.add(json.dumps([(st["op"], st["a"], st["b"], st["x"] if isinstance(st["x"], str) else "") for st in b["steps"]]))
+    if beh:
+        chk.sample({"replay-conn": [(st["op"], st["a"], st["b"]) for st in beh[0]["steps"]][:14]})
+    if validate is not None:
+        keep = set(summ["files"][:validate])
+        skipped = [r for r in summ["runs"] if r["file"] not in keep]
+        summ["files"] = [f for f in summ["files"] if f in keep]
+        summ["runs"] = [r for r in summ["runs"] if r["file"] in keep]
+        # runs whose trace is not validated here still count through their step-by-step comparison
+        for r in skipped:
+            if r["panics"]:
+                chk.violation("%s:panic:%s" % (label, r["panics"][0][:80]), "panic in the code under test: %s" % r["panics"][0][:300], {"run": r})
+            elif "err" in r["result"]:
+                e = r["result"]["err"]
+                if e.startswith("VIOLATION"):
+                    chk.violation("%s:%s" % (label, e[:100]), "%s (behaviour %d of %s)" % (e, r["seed"], cfg), {"run": r, "behaviour": beh[r["seed"] - 1]})
+                else:
+                    chk.tool_errors.append("replay-conn %s behaviour %d: %s" % (cfg, r["seed"], e))
+        chk.traces += len(skipped)
+    trace_check(chk, *CONN_TRACE, summ, label=label)
+
+
 def replay_check(chk, name, summ):
     part = {k: v for k, v in summ.items() if k != "mismatches"}
     part["name"] = name
@@ -117,6 +161,11 @@ def c04(chk):
             if s["ret"] in ("replaced", "rejected", "removed"):
                 chk.distinct.add(json.dumps(("replay", s["op"], s["ret"], s["origin"], len(s["post"]["listing"]))))
     spec_mutant(chk, "ap_no_lost_on_replace", "MC_Ap.tla", "MC_Ap_quick.cfg", [MUT_NO_LOST_ON_REPLACE], workers=4)
+    # (c') the same direction for the whole manager: behaviours of MC_Conn (dials, admission, finished tasks
+    # consumed in any order, stale and live handler exits, disconnects, subscriptions) driven through real
+    # Networks with schedule gates, every node compared after every step
+    conn_replay(chk, "mgr-replay2", "SIM_ConnReplay.cfg", num=120 if quick(chk) else 4000, depth=100)
+    conn_replay(chk, "mgr-replay3", "SIM_ConnReplay3.cfg", num=60 if quick(chk) else 2000, depth=120)
     # (d) unbounded: ApProof abstracts the active set to stored / last event / closed; TLAPS proves its
     # invariant for any number of peers and connections, TLC checks that MC_Ap refines it
     # (PROPERTY RefinesApProof in MC_Ap*.cfg), and a proof mutant must fail
@@ -166,6 +215,10 @@ def c05(chk):
                 [("AnemoConn.tla", "THEN IF TieBreak(n, p, cur[p].origin, o)", "THEN IF TRUE")], workers=4)
     tables = vlib.tlc_tables("TieBreakTable.tla", "TieBreakTable.cfg")
     table_check(chk, "tiebreak", tables["tiebreak"], "table-tiebreak", per_row=400 if quick(chk) else 20000)
+    # every behaviour of MC_Conn with two dials between the pair (mutual, and twice the same way) - every order
+    # in which admissions, the four finished tasks and the handler exits can be taken - replayed on real
+    # Networks through schedule gates (exhaustive: 1262 behaviours), every node compared after every step
+    conn_replay(chk, "mutual-exhaustive", "SIM_ConnReplay_c05.cfg", exhaustive=True, validate=2 if quick(chk) else None)
     runs = 48 if quick(chk) else 48 * 8
     for label, gated, seed in (("gated", 1, chk.seed * 48), ("random", 0, 100_000 + chk.seed)):
         summ = harness("c05", out=os.path.join(vlib.WORK, f"C05_{label}"), seed=seed,
@@ -226,6 +279,9 @@ def c03(chk):
                 elif r["ev"] in ("obs.connect_result",) and "addr" in r:
                     chk.case((addr_kind.get(r["addr"]), r.get("expected"), r["ok"], r.get("peer")))
         sample_events(chk, summ, ("obs.connect_result", "dial.done"), n=3)
+    # specification -> implementation: every connect() of a replayed MC_Conn behaviour returns the
+    # specification's result, the identity of the party dialed, with the peer listed when it returns Ok
+    conn_replay(chk, "dial-replay", "SIM_ConnReplay.cfg", num=80 if quick(chk) else 2500, depth=100)
     if not quick(chk):
         spec_mutant(chk, "remove_by_peer", "MC_Conn.tla", "MC_Conn_quick.cfg", [MUT_REMOVE_BY_PEER])
 
@@ -256,6 +312,7 @@ def c09(chk):
         count_cases(chk, summ, lambda r: (
             (r["ev"], r.get("reason"), "removed" in r) if r["ev"] in ("h.closing", "ap.remove_id", "obs.quiesce") else None))
     sample_events(chk, summ, ("h.closing", "obs.quiesce", "obs.rpc_result"), n=4)
+    conn_replay(chk, "mgr-replay3", "SIM_ConnReplay3.cfg", num=40 if quick(chk) else 1500, depth=120)
     # valid but unusual configurations on one side only (no uni streams on the listener, one bidi stream,
     # tiny windows, one-slot mailbox, keep-alive on the other side only, ...): connected, listed, reachable
     # both ways, kept alive through an idle period, clean shutdown - whatever the setting
@@ -285,6 +342,9 @@ def c10(chk):
         (r["verdict"], r.get("affinity"), r.get("limit"), r["active_len"])
         if r["ev"] == "in.admission" and not (r["verdict"] == "admit" and "affinity" not in r and "limit" not in r) else None))
     sample_events(chk, summ, ("in.admission",), n=4)
+    # specification -> implementation: behaviours of MC_Conn under the C10 limits / affinities; the real code's
+    # verdict at every admission step must be the specification's
+    conn_replay(chk, "admission-replay", "SIM_ConnReplay3.cfg", num=60 if quick(chk) else 3000, depth=120)
     spec_mutant(chk, "limit_off_by_one", "MC_Conn.tla", "MC_Conn_c10.cfg", [MUT_LIMIT_OFF_BY_ONE])
 
 
